@@ -445,6 +445,7 @@ def initialize():
             f_module=dict(iso_c_binding=["C_SIZE_T"]),
             PY_format="n",
             PY_ctor="PyInt_FromSize_t({ctor_expr})",
+            PY_get="PyInt_AsLong({py_var})",
             LUA_type="LUA_TNUMBER",
             LUA_pop="lua_tointeger({LUA_state_var}, {LUA_index})",
             LUA_push="lua_pushinteger({LUA_state_var}, {push_arg})",
